@@ -9,6 +9,8 @@ for those `WF` is representability alone (`wf_of_unsorted`); every index returne
 canonical form (`wf_norm`).
 -/
 import Hts.Lemmas.IndexIO
+import Hts.Lemmas.IndexIOTabix
+import Hts.Lemmas.IndexIOCsi
 import Hts.Lemmas.IndexStats
 import Hts.Props.C04
 namespace Hts.Props.C15
@@ -83,6 +85,74 @@ theorem bai_chunks_complete_after_roundtrip (recs : List Bai.BaiRec)
   refine ⟨norm (Hts.Props.C04.baiBuilt recs), readBai_writeBai _ hwf hne, ?_⟩
   rw [bai_chunks_norm]
   exact (Hts.Props.C04.bai_chunks_complete recs h r hr hp beg stop hb hq hs29 hov1 hov2 id s encLaw_id hs).1
+
+/-! ### tabix: header fields, name block, index body -/
+
+/-- `read_write` (tabix): for every representable tabix index (header fields in their int32/byte
+ranges, at least one reference, as many NUL-free names as references) -/
+theorem tabix_read_write (t : Tabix.TIndex) (h : TWF t) : readTabix (writeTabix t) = .ok (some (normTabix t)) :=
+  readTabix_writeTabix t h
+
+theorem tabix_write_norm (t : Tabix.TIndex) : writeTabix (normTabix t) = writeTabix t := writeTabix_norm t
+
+theorem tabix_rewrite_identical (t : Tabix.TIndex) (h : TWF t) :
+    ∃ t', readTabix (writeTabix t) = .ok (some t') ∧ writeTabix t' = writeTabix t ∧
+      t'.hdr = t.hdr ∧ t'.names = t.names ∧ t'.idx = norm t.idx :=
+  ⟨normTabix t, readTabix_writeTabix t h, writeTabix_norm t, rfl, rfl, rfl⟩
+
+/-- queries by name are answered identically when the re-built name map agrees with the one `Add`
+maintained (it does for distinct names in first-appearance order; checked by correspondence) -/
+theorem tabix_chunks_norm (adj : List Chunk → List Chunk) (t : Tabix.TIndex) (name : Tabix.Name) (beg stop : Int)
+    (hmap : Tabix.mapGet (Tabix.buildMap t.names) name = Tabix.mapGet t.nameMap name) :
+    Tabix.chunks Coord.overlappingBinsFor adj (normTabix t) name beg stop =
+      Tabix.chunks Coord.overlappingBinsFor adj t name beg stop := by
+  unfold Tabix.chunks
+  show (match Tabix.mapGet (Tabix.buildMap t.names) name with
+    | none => _ | some id => match Index.chunks (norm t.idx) _ _ _ _ with | .error e => _ | .ok cs => _) = _
+  rw [hmap]
+  cases Tabix.mapGet t.nameMap name with
+  | none => rfl
+  | some id => simp only [IndexIO.chunks_norm]; rfl
+
+/-- the zero-reference case for tabix (same finding as BAI) -/
+theorem tabix_read_write_noRefs (hdr : Tabix.Header) : readTabix (writeTabix { hdr := hdr }) = .ok none := by
+  unfold readTabix writeTabix
+  have hm : ∀ X : Bytes, rBytes 4 (tbiMagic ++ X) = .ok (tbiMagic, X) := by intro X; simp [rBytes, tbiMagic]
+  simp only [List.append_assoc]
+  rw [hm]
+  simp only [ne_eq, not_true_eq_false, if_false]
+  rw [rI32_i32 _ (by simp) (by simp)]
+  simp
+
+/-! ### CSI versions 1 and 2, any auxiliary bytes -/
+
+/-- `read_write` (CSI): for every representable CSI index of version 1 or 2 with depth ≤ 9 -/
+theorem csi_read_write (i : Csi.CIndex) (h : CWF i) : readCsi (writeCsi i) = .ok (normCsi i) :=
+  readCsi_writeCsi i h
+
+theorem csi_write_norm (i : Csi.CIndex) : writeCsi (normCsi i) = writeCsi i := writeCsi_norm i
+
+theorem csi_rewrite_identical (i : Csi.CIndex) (h : CWF i) :
+    ∃ i', readCsi (writeCsi i) = .ok i' ∧ writeCsi i' = writeCsi i ∧ i'.aux = i.aux ∧ i'.version = i.version ∧
+      i'.minShift = i.minShift ∧ i'.depth = i.depth ∧ i'.unmapped = i.unmapped :=
+  ⟨normCsi i, readCsi_writeCsi i h, writeCsi_norm i, rfl, rfl, rfl, rfl, rfl⟩
+
+theorem csi_chunks_norm (i : Csi.CIndex) (rid beg stop : Int) :
+    Csi.chunks Coord.reg2bins Local.adjacent (normCsi i) rid beg stop =
+      Csi.chunks Coord.reg2bins Local.adjacent i rid beg stop :=
+  IndexIO.csi_chunks_norm _ _ i rid beg stop
+
+/-- C04's completeness for CSI carries over to the index read back from the written bytes -/
+theorem csi_chunks_complete_after_roundtrip (ms d : Nat) (hd : d ≤ 10) (recs : List Csi.CRec)
+    (h : Csi.CSortedInput ms d recs) (hwf : CWF (Hts.Props.C04.csiBuilt ms d recs))
+    (r : Csi.CRec) (hr : r ∈ recs) (hp : r.placed = true)
+    (beg stop : Int) (hb : 0 ≤ beg) (hq : beg < stop) (hs : stop ≤ (2 : Int) ^ (ms + 3 * d))
+    (hov1 : r.start < stop) (hov2 : beg < r.stop) :
+    ∃ i', readCsi (writeCsi (Hts.Props.C04.csiBuilt ms d recs)) = .ok i' ∧
+      coveredBy (Csi.chunks Coord.reg2bins Local.adjacent i' r.rid beg stop) r.chunk := by
+  refine ⟨_, readCsi_writeCsi _ hwf, ?_⟩
+  rw [IndexIO.csi_chunks_norm]
+  exact (Hts.Props.C04.csi_chunks_complete ms d hd recs h r hr hp beg stop hb hq hs hov1 hov2 id encLaw_id).1
 
 /-! ### statistics equal the true counts -/
 
